@@ -197,3 +197,33 @@ ghost("Leaf", ["n"], "len(n.children) == 0 and len(n.adoptees) == 0")
 ghost("Sched", ["t", "sc"], "attr(t, 'scheduled', sc) is not None and some(attr(t, 'scheduled', sc))")
 ghost("TStart", ["t", "sc"], "attr(t, 'start', sc)")
 ghost("TEnd", ["t", "sc"], "attr(t, 'end', sc)")
+
+# ---- dependencies: a list item is either the predecessor Task itself or a dict with options --------------------
+# One record sort "Dep": is_dict tells which; for a plain item the object *is* the task.
+fields_of("Dep", is_dict=Bool, d_task=Opt(Ref("Task")), gapduration=Opt(Str), gaplength=Opt(Str),
+          maxgapduration=Opt(Str), onstart=Bool, onend=Bool)
+attrs(depends=Opt(List(Ref("Dep"))))
+
+
+def _dep_get(ex, node, st, recv):
+    """dep.get(...): dict.get on an options dict, attribute get on a task."""
+    a0 = node.args[0]
+    if not (isinstance(a0, ast.Constant) and isinstance(a0.value, str)):
+        raise Unsupported("dep.get with a non-literal key", node)
+    key = a0.value
+    r = T.opt_inner(recv)
+    if len(node.args) + len(node.keywords) >= 2 and key in REG.attrs and key not in ("task",) and \
+            not (len(node.args) == 2 and isinstance(node.args[1], ast.Constant)):
+        from pyvc.calls import _attr_get
+        return _attr_get(ex, node, st, recv)
+    table = {"task": "Dep.d_task", "gapduration": "Dep.gapduration", "gaplength": "Dep.gaplength",
+             "maxgapduration": "Dep.maxgapduration", "onstart": "Dep.onstart", "onend": "Dep.onend"}
+    if key not in table:
+        raise Unsupported(f"dep.get('{key}')", node)
+    return ex.h.get_field(st, r.t, table[key], REG.fields[table[key]])
+
+
+klass("Dep", attrget=True, isinstance={"dict": "self.is_dict"}, hasattr={"task": "False"},
+      methods={"get": ("pyfunc", _dep_get)})
+# the predecessor task of a dependency item, its gap in seconds, its kind
+ghost("DepTask", ["d"], "ite(d.is_dict, d.d_task, d)")
